@@ -5,6 +5,7 @@ package main
 import (
 	"fmt"
 	"sort"
+	"strconv"
 	"strings"
 
 	"golang.org/x/tools/go/ssa"
@@ -59,12 +60,9 @@ func runC17(r *Report, tier string) {
 		bounds[cn] = map[int64]bool{}
 		isVerifier := cn == "NewVerifier"
 		nsucc, nfail := 0, 0
-		for _, p := range P.allPaths(fn) {
-			if !p.feasible() {
-				continue
-			}
+		for _, p := range P.ctorVPaths(fn, nil, 0) {
 			r.paths++
-			res := p.results()
+			res := p.res
 			fs := factSet{}
 			for _, c := range p.conds {
 				fs.add(c)
@@ -87,7 +85,7 @@ func runC17(r *Report, tier string) {
 				fam, supported := fams[alg]
 				_ = fam
 				if !known || !supported {
-					o := r.ob("R17.1", fmt.Sprintf("%s:refusal:%s", cn, pathID(p)), fn, p.ret, "an unsupported algorithm is refused with ErrAlgorithmNotSupported")
+					o := r.ob("R17.1", fmt.Sprintf("%s:refusal:%s", cn, p.id), fn, p.ret, "an unsupported algorithm is refused with ErrAlgorithmNotSupported")
 					o.check(strings.Contains(et, "*@ErrAlgorithmNotSupported") && res[0].Op == "nil", "wraps ErrAlgorithmNotSupported", fmt.Sprintf("algorithm %d (case known: %v) fails with %s", alg, known, truncate(et, 160)))
 				} else {
 					// a supported algorithm refused: wrong key type / weak key
@@ -98,15 +96,15 @@ func runC17(r *Report, tier string) {
 						}
 					}
 					if typeFail {
-						r.ob("R17.1", fmt.Sprintf("%s:wrong-key:%d:%s", cn, alg, pathID(p)), fn, p.ret, "a key of the wrong family is refused with ErrInvalidPubKey").check(strings.Contains(et, "*@ErrInvalidPubKey") && res[0].Op == "nil", "wraps ErrInvalidPubKey", "fails with "+truncate(et, 160))
+						r.ob("R17.1", fmt.Sprintf("%s:wrong-key:%d:%s", cn, alg, p.id), fn, p.ret, "a key of the wrong family is refused with ErrInvalidPubKey").check(strings.Contains(et, "*@ErrInvalidPubKey") && res[0].Op == "nil", "wraps ErrInvalidPubKey", "fails with "+truncate(et, 160))
 					} else {
-						r.ob("R17.1", fmt.Sprintf("%s:refused:%d:%s", cn, alg, pathID(p)), fn, p.ret, "a refused key yields no object").check(res[0].Op == "nil", "nil object", "returns "+truncate(res[0].String(), 80)+" with an error")
+						r.ob("R17.1", fmt.Sprintf("%s:refused:%d:%s", cn, alg, p.id), fn, p.ret, "a refused key yields no object").check(res[0].Op == "nil", "nil object", "returns "+truncate(res[0].String(), 80)+" with an error")
 					}
 				}
 				continue
 			}
 			nsucc++
-			o := r.ob("R17.1", fmt.Sprintf("%s:success:%d:%s", cn, alg, pathID(p)), fn, p.ret, "a success path belongs to a supported algorithm and has established its key requirements")
+			o := r.ob("R17.1", fmt.Sprintf("%s:success:%d:%s", cn, alg, p.id), fn, p.ret, "a success path belongs to a supported algorithm and has established its key requirements")
 			fam, supported := fams[alg]
 			if !known || !supported {
 				o.fail(fmt.Sprintf("an object is constructed for algorithm %d (case known: %v), which has no built-in implementation", alg, known))
@@ -138,16 +136,7 @@ func runC17(r *Report, tier string) {
 			obj := res[0]
 			if obj.Op == "iface" {
 				cc.typ = obj.S
-				if obj.Args[0].Op == "alloc" {
-					// field values of the constructed struct at the return
-					for _, b := range fn.Blocks {
-						for _, in := range b.Instrs {
-							if a, ok := in.(*ssa.Alloc); ok && P.terms.of(a).eq(obj.Args[0]) {
-								cc.algField = p.eng.loadPath(a, []string{"alg"}, p.ret).String()
-							}
-						}
-					}
-				}
+				cc.algField = p.algField
 			}
 			why := ""
 			switch {
@@ -166,7 +155,7 @@ func runC17(r *Report, tier string) {
 				bounds[cn][cc.rsaBound] = true
 			}
 			// R17.3
-			o3 := r.ob("R17.3", fmt.Sprintf("%s:alg-field:%d:%s", cn, alg, pathID(p)), fn, p.ret, "the object records the requested algorithm")
+			o3 := r.ob("R17.3", fmt.Sprintf("%s:alg-field:%d:%s", cn, alg, p.id), fn, p.ret, "the object records the requested algorithm")
 			if cc.algField == "zero()" || cc.algField == "" {
 				// type without alg field: its Algorithm() must be the case constant
 				o3.check(fam.family == "ed25519", "type has no alg field (Ed25519)", "alg field not set on "+cc.typ)
@@ -231,6 +220,72 @@ func runC17(r *Report, tier string) {
 	// R17.4
 	c17Digest(r)
 	checkHashTable(r, "R17.4")
+}
+
+// vpath: one way through a constructor, with calls to in-package helper
+// constructors (whose (object, error) pair is returned unchanged) inlined.
+type vpath struct {
+	conds    []Fact
+	res      []*Term
+	ret      *ssa.Return
+	id       string
+	algField string
+}
+
+func (P *Prog) ctorVPaths(fn *ssa.Function, m map[string]*Term, depth int) []*vpath {
+	var out []*vpath
+	for _, p := range P.allPaths(fn) {
+		if !p.feasible() {
+			continue
+		}
+		vp := &vpath{ret: p.ret, id: pathID(p)}
+		for _, c := range p.conds {
+			if m != nil {
+				c = normFact(c.Pred.subst(m), c.Val)
+			}
+			vp.conds = append(vp.conds, c)
+		}
+		res := p.results()
+		// alg field of a struct constructed on this path
+		if len(res) > 0 && res[0].Op == "iface" && res[0].Args[0].Op == "alloc" {
+			for _, b := range fn.Blocks {
+				for _, in := range b.Instrs {
+					if a, ok := in.(*ssa.Alloc); ok && P.terms.of(a).eq(res[0].Args[0]) {
+						af := p.eng.loadPath(a, []string{"alg"}, p.ret)
+						if m != nil {
+							af = af.subst(m)
+						}
+						vp.algField = af.String()
+					}
+				}
+			}
+		}
+		for _, t := range res {
+			if m != nil {
+				t = t.subst(m)
+			}
+			vp.res = append(vp.res, t)
+		}
+		// helper returning the pair unchanged
+		if len(vp.res) == 2 && pairDelegated(vp.res[0], vp.res[1]) && depth < 2 {
+			call := vp.res[0].Args[0]
+			if g := P.calleeOfTerm(call); g != nil && g != fn {
+				m2 := map[string]*Term{}
+				for i, a := range call.Args {
+					m2[strconv.Itoa(i)] = a
+				}
+				for _, sub := range P.ctorVPaths(g, m2, depth+1) {
+					sub.conds = append(append([]Fact{}, vp.conds...), sub.conds...)
+					sub.id = vp.id + "/" + sub.id
+					sub.ret = vp.ret
+					out = append(out, sub)
+				}
+				continue
+			}
+		}
+		out = append(out, vp)
+	}
+	return out
 }
 
 // c17Digest: R17.4 over the RSA and ECDSA signer/verifier types.
